@@ -83,7 +83,7 @@ def gen_plan(rng, index, tier):
     steps = []
     kinds = ["swap", "swap", "cascade", "discharge_fresh", "discharge_pool", "add", "remove", "remove"]
     if cfg["rejected"]:
-        kinds += ["add_occupied", "remove_absent", "readd_present", "readd_removed", "add_copy", "add_stale_counter", "swap_with_pool", "discharge_twice"]
+        kinds += ["add_occupied", "remove_absent", "readd_present", "readd_removed", "add_copy", "add_stale_counter", "swap_with_pool", "discharge_twice", "discharge_incoming_in_core"]
     for _ in range(rng.randint(4, 40)):
         op = rng.choice(kinds)
         s = {"op": op, "a": rng.randrange(1000), "b": rng.randrange(1000)}
@@ -390,6 +390,13 @@ class World:
                 return False
             b = sorted(m.pool)[st["b"] % len(m.pool)]
             return self.expect_refusal(k, st, lambda: fh.swapAssemblies(self.h2o[a], self.h2o[b]))
+        if op == "discharge_incoming_in_core":
+            # the incoming assembly sits in the core itself (an in-core swap is the call for that)
+            a = self.pick_core(st["a"])
+            b = self.pick_core(st["b"])
+            if a is None or b is None or a == b:
+                return False
+            return self.expect_refusal(k, st, lambda: fh.dischargeSwap(self.h2o[a], self.h2o[b]))
         if op == "discharge_twice":
             # the outgoing assembly has left the core already
             cands = sorted(m.purged | set(m.pool))
